@@ -161,6 +161,45 @@ def _treearray_forwards(tcm):
     return False
 
 
+def _treearray_none_rooting(tcm):
+    """TreeArray.add_tree: is an undefined tree rooting (None) turned into False before
+    validate_rooting?  Accepted shapes:
+       self.validate_rooting(tree.is_rooted)                         -> False
+       rooting = tree.is_rooted; if rooting is None: rooting = False;
+       self.validate_rooting(rooting)                                -> True"""
+    cls = _find(tcm.body, ast.ClassDef, "TreeArray")
+    fn = _find(cls.body, ast.FunctionDef, "add_tree")
+    calls = [n for n in ast.walk(fn) if isinstance(n, ast.Call) and isinstance(n.func, ast.Attribute)
+             and n.func.attr == "validate_rooting"]
+    if len(calls) != 1 or len(calls[0].args) != 1 or calls[0].keywords:
+        raise Unsupported("TreeArray.add_tree: expected exactly one validate_rooting(x) call")
+    a = calls[0].args[0]
+    if (isinstance(a, ast.Attribute) and a.attr == "is_rooted" and isinstance(a.value, ast.Name)
+            and a.value.id == "tree"):
+        return False
+    if not isinstance(a, ast.Name):
+        raise Unsupported("TreeArray.add_tree: validate_rooting argument shape")
+    var = a.id
+    assigns = [n for n in ast.walk(fn) if isinstance(n, ast.Assign) and len(n.targets) == 1
+               and isinstance(n.targets[0], ast.Name) and n.targets[0].id == var]
+    ifs = [n for n in fn.body if isinstance(n, ast.If)]
+    ok_init = any(isinstance(x.value, ast.Attribute) and x.value.attr == "is_rooted"
+                  and isinstance(x.value.value, ast.Name) and x.value.value.id == "tree" for x in assigns)
+    ok_if = False
+    for n in ifs:
+        t = n.test
+        if (isinstance(t, ast.Compare) and isinstance(t.left, ast.Name) and t.left.id == var
+                and len(t.ops) == 1 and isinstance(t.ops[0], ast.Is)
+                and isinstance(t.comparators[0], ast.Constant) and t.comparators[0].value is None
+                and not n.orelse and len(n.body) == 1 and isinstance(n.body[0], ast.Assign)
+                and isinstance(n.body[0].targets[0], ast.Name) and n.body[0].targets[0].id == var
+                and isinstance(n.body[0].value, ast.Constant) and n.body[0].value.value is False):
+            ok_if = True
+    if ok_init and ok_if and len(assigns) == 2:
+        return True
+    raise Unsupported("TreeArray.add_tree: rooting normalisation of unexpected shape")
+
+
 def _default_of(fn, argname):
     a = fn.args
     pos = a.args
@@ -228,6 +267,10 @@ def generate(repo):
     out.append("(* TreeArray.__init__ %s use_tree_weights to its SplitDistribution *)"
                % ("forwards" if fw else "does NOT forward"))
     out.append("Definition treearray_forwards_use_tree_weights : bool := %s." % ("true" if fw else "false"))
+    nr = _treearray_none_rooting(tcm)
+    out.append("(* TreeArray.add_tree %s an undefined tree rooting (None) as unrooted (False) *)"
+               % ("records" if nr else "does NOT record"))
+    out.append("Definition treearray_none_rooting_is_unrooted : bool := %s." % ("true" if nr else "false"))
     out.append("(* every min_freq default in SplitDistribution / TreeList / TreeArray is constants.GREATER_THAN_HALF *)")
     out.append("Definition default_min_freq : Q := greater_than_half.")
     return "\n".join(out) + "\n"
